@@ -154,6 +154,7 @@ def run(ctx):
     fresh_scope(ctx, ctx.lib)
     no_global_state(ctx, [ctx.lib, ctx.bin, ctx.crate("cfn_guard_lambda-lib"), ctx.crate("cfn_guard_ffi-lib")])
     scope_is_local(ctx, ctx.lib)
+    ctx.positive_control("R-C12-no-global-state", "statics", lambda sub, fx: no_global_state(sub, [fx]), ["COUNTER", "CACHE", "HITS", "SCRATCH"])
     ctx.assumptions += [
         "loops are explored for up to %d scope creations per path; a scope reuse that only appears later is outside this bound" % MAX_GEN,
         "PathAwareValue::merge takes self by value, so the shared input parameters can only be merged through a clone (enforced by the borrow checker)",
